@@ -3,6 +3,7 @@ import PepitVerif.Math.AlgebraSem
 import PepitVerif.Math.WellFormed
 import PepitVerif.Math.StepsSem
 import PepitVerif.Props.C10
+import PepitVerif.Math.Convex
 
 /-!
 # Property C09 / C10: the example scripts of two families, as specified in `Model/Methods`, are the methods the theorems are about
@@ -403,7 +404,99 @@ theorem gfc_example_no_run_beats_bound (f : E → ℝ) (g : E → E) (t : Coef) 
   rw [e] at hc
   nlinarith [mul_nonneg ht (sq_nonneg ‖v 2‖)]
 
+/-! ## gradient descent, second potential function (potential_functions.gradient_descent_lyapunov_2) -/
+
+theorem gdl2V_den (v : Nat → E) (φ : Nat → ℝ) (L c1 c2 : Coef) (fk : Nat) (g x : PDict) :
+    EDict.den v φ (gdl2V L c1 c2 fk g x) =
+      ((c1 : ℚ) : ℝ) * (φ fk - φ 0) + ((c2 : ℚ) : ℝ) * ‖PDict.den v g‖ ^ 2
+        + ((L : ℚ) : ℝ) * ((L : ℚ) : ℝ) * ‖PDict.den v x - v 0‖ ^ 2 := by
+  unfold gdl2V PDict.sq
+  rw [EDict.den_add v φ _ _ (EDict.wf_smul _ _ (PDict.wf_ip _ _)),
+    EDict.den_add v φ _ _ (EDict.wf_smul _ _ (PDict.wf_ip _ _)), EDict.den_smul, EDict.den_smul, EDict.den_smul,
+    EDict.den_sub v φ _ _ (nodup_singleE _ _), den_ip, den_ip, PDict.den_sub v x _ (nodup_single 0 1),
+    real_inner_self_eq_norm_sq, real_inner_self_eq_norm_sq, denE_single, denE_single, denP_single]
+  push_cast; ring
+
+theorem wf_gdl2V (L c1 c2 : Coef) (fk : Nat) (g x : PDict) : (Dict.keys (gdl2V L c1 c2 fk g x)).Nodup := by
+  unfold gdl2V
+  exact EDict.wf_add _ _ (EDict.wf_add _ _ (EDict.wf_smul _ _ (EDict.wf_sub _ _ (nodup_singleE _ _))))
+
+/-- **the second potential decreases along every real run, for the script's own metric**: `f` convex and `L`-smooth with
+gradient `g`, `g(x⋆) = 0`, step `γ = 1/L`; under every interpretation consistent with `f` the metric `V_{n+1} − V_n`,
+`V_k = (2k+1) L (f_k − f⋆) + k(k+2) ‖g_k‖² + L² ‖x_k − x⋆‖²`, is `≤ 0`.  The proof is the certificate PEPit finds numerically:
+`−(V_{n+1} − V_n) = L (2 S(⋆,n) + 2(n+1)(n+3) S(n,n+1) + (2n²+6n+3) S(n+1,n)) + (n²+3n+3/2) ‖g_n − g_{n+1}‖²` with `S(i,j) ≥ 0` the
+smooth-convex interpolation inequalities (`sc_interp`) -/
+theorem gdl2_example_no_run_beats_bound (f : E → ℝ) (g : E → E) (L γ : Coef) (hL : 0 < ((L : ℚ) : ℝ))
+    (hγ : ((γ : ℚ) : ℝ) * ((L : ℚ) : ℝ) = 1)
+    (hconv : ∀ x y, f y ≥ f x + ⟪g x, y - x⟫)
+    (hsm : ∀ x y, f y ≤ f x + ⟪g x, y - x⟫ + ((L : ℚ) : ℝ) / 2 * ‖y - x‖ ^ 2)
+    (v : Nat → E) (φ : Nat → ℝ) (n : Nat)
+    (hstar : g (v 0) = 0) (hg : v 2 = g (v 1)) (hg' : v 3 = g (v 1 - ((γ : ℚ) : ℝ) • v 2))
+    (h0 : φ 0 = f (v 0)) (h1 : φ 1 = f (v 1)) (h2 : φ 2 = f (v 1 - ((γ : ℚ) : ℝ) • v 2)) :
+    ∀ m ∈ (gdl2 L γ n).metrics, EDict.den v φ m ≤ 0 := by
+  intro m hm
+  have : m = gdl2Metric L γ n := by simpa [gdl2] using hm
+  subst this
+  unfold gdl2Metric
+  rw [EDict.den_sub v φ _ _ (wf_gdl2V _ _ _ _ _ _), gdl2V_den, gdl2V_den]
+  unfold gdlNext
+  rw [den_stepPt, denP_single, denP_single, denP_single, h0, h1, h2]
+  set Lr := ((L : ℚ) : ℝ) with hLr
+  set γr := ((γ : ℚ) : ℝ) with hγr
+  set x := v 1; set gx := v 2; set xs := v 0; set hx := v 3
+  set xp := x - γr • gx with hxp
+  -- the three interpolation inequalities PEPit's certificate uses
+  have S01 := sc_interp f g Lr hL hconv hsm xs x
+  have S12 := sc_interp f g Lr hL hconv hsm x xp
+  have S21 := sc_interp f g Lr hL hconv hsm xp x
+  rw [hstar, ← hg] at S01
+  rw [← hg, ← hg'] at S12
+  rw [← hg, ← hg'] at S21
+  -- atoms
+  have e01 : ⟪gx, xs - x⟫ = -⟪gx, x - xs⟫ := by rw [← neg_sub x xs, inner_neg_right]
+  have n01 : ‖(0 : E) - gx‖ ^ 2 = ‖gx‖ ^ 2 := by rw [zero_sub, norm_neg]
+  have e12 : ⟪hx, x - xp⟫ = γr * ⟪gx, hx⟫ := by
+    rw [hxp, sub_sub_cancel, real_inner_smul_right, real_inner_comm]
+  have e21 : ⟪gx, xp - x⟫ = -(γr * ‖gx‖ ^ 2) := by
+    rw [hxp, sub_sub_cancel_left, inner_neg_right, real_inner_smul_right, real_inner_self_eq_norm_sq]
+  have n12 : ‖gx - hx‖ ^ 2 = ‖gx‖ ^ 2 - 2 * ⟪gx, hx⟫ + ‖hx‖ ^ 2 := by rw [@norm_sub_sq_real]
+  have n21 : ‖hx - gx‖ ^ 2 = ‖gx‖ ^ 2 - 2 * ⟪gx, hx⟫ + ‖hx‖ ^ 2 := by rw [@norm_sub_sq_real, real_inner_comm]; ring
+  have e2 : xp - xs = (x - xs) - γr • gx := by rw [hxp]; abel
+  have hdist : ‖xp - xs‖ ^ 2 = ‖x - xs‖ ^ 2 - 2 * γr * ⟪gx, x - xs⟫ + γr ^ 2 * ‖gx‖ ^ 2 := by
+    rw [e2, @norm_sub_sq_real, real_inner_smul_right, norm_smul, mul_pow, Real.norm_eq_abs, sq_abs, real_inner_comm]
+    ring
+  rw [e01, n01] at S01
+  rw [e12, n12] at S12
+  rw [e21, n21] at S21
+  rw [hdist]
+  have hγL : γr = 1 / Lr := by field_simp; linarith
+  have hinv : 1 / (2 * Lr) = γr / 2 := by rw [hγL]; field_simp
+  rw [hinv] at S01 S12 S21
+  push_cast
+  set nn : ℝ := (n : ℝ) with hnn
+  have hn : 0 ≤ nn := Nat.cast_nonneg n
+  -- name the atoms
+  set aa := ‖x - xs‖ ^ 2; set ag := ⟪gx, x - xs⟫; set gg := ‖gx‖ ^ 2; set gh := ⟪gx, hx⟫; set hh := ‖hx‖ ^ 2
+  set F0 := f xs; set F1 := f x; set F2 := f xp
+  have hgh : 0 ≤ gg - 2 * gh + hh := by rw [← n12]; exact sq_nonneg _
+  have P1 := mul_nonneg (mul_nonneg (by norm_num : (0 : ℝ) ≤ 2) hL.le) (sub_nonneg.mpr S01)
+  have P2 := mul_nonneg (mul_nonneg (by positivity : (0 : ℝ) ≤ 2 * (nn + 1) * (nn + 3)) hL.le) (sub_nonneg.mpr S12)
+  have P3 := mul_nonneg (mul_nonneg (by positivity : (0 : ℝ) ≤ 2 * nn ^ 2 + 6 * nn + 3) hL.le) (sub_nonneg.mpr S21)
+  have P4 := mul_nonneg (by positivity : (0 : ℝ) ≤ nn ^ 2 + 3 * nn + 3 / 2) hgh
+  have hLγ : Lr * γr = 1 := by linarith
+  -- −(V_{n+1} − V_n) = P1 + P2 + P3 + P4 once `L γ = 1` is used
+  have key : ((2 * nn + 3) * Lr * (F2 - F0) + (nn + 1) * (nn + 3) * hh + Lr * Lr * (aa - 2 * γr * ag + γr ^ 2 * gg))
+      - ((2 * nn + 1) * Lr * (F1 - F0) + nn * (nn + 2) * gg + Lr * Lr * aa)
+      + (2 * Lr * (F0 - F1 - (-ag + γr / 2 * gg))
+        + 2 * (nn + 1) * (nn + 3) * Lr * (F1 - F2 - (γr * gh + γr / 2 * (gg - 2 * gh + hh)))
+        + (2 * nn ^ 2 + 6 * nn + 3) * Lr * (F2 - F1 - (-(γr * gg) + γr / 2 * (gg - 2 * gh + hh)))
+        + (nn ^ 2 + 3 * nn + 3 / 2) * (gg - 2 * gh + hh)) = 0 := by
+    rw [hγL]; field_simp; ring
+  linarith [P1, P2, P3, P4, key]
+
 end Pepit.C09M
+
+#print axioms Pepit.C09M.gdl2_example_no_run_beats_bound
 
 #print axioms Pepit.C09M.gfc_example_no_run_beats_bound
 
